@@ -38,6 +38,7 @@ C20.7 quota exceeded exactly when existing + count > quota. Fourth round:
 C20.3 the monitor callback of the data watch runs only on a changed node
 version; C20.7 the per-proid count is published and looked up under the same
 key.
+Sweep: C20.3 the data watch fires only when the version changed; C20.5 the monitor passes are never cut short; C20.7 the aggregate key agrees with the master.
 Does NOT decide convergence and budget over sequences of evaluations.
 """
 
